@@ -1,5 +1,6 @@
 from typing import Any
 import base64
+import re
 
 from celpy import celtypes
 
@@ -58,7 +59,7 @@ def convert_bools(
 def encode_cel(value: Any) -> str:
     if isinstance(value, dict):
         return f"{{{ ",".join(
-            f'"{f"{key}".replace('"', '\"')}":{encode_cel(value)}'
+            f"{_encode_str(f"{key}")}:{encode_cel(value)}"
             for key, value in value.items()
         ) }}}"
 
@@ -78,31 +79,45 @@ def encode_cel(value: Any) -> str:
         return '""'
 
     if not value.startswith(CEL_PREFIX):
-        if "\n" in value:
-            return f'r"""{ value.replace('"', '\"') }"""'  # fmt: skip
-
-        if '"' in value:
-            return f'"""{ value.replace('"', r'\"') }"""'  # fmt: skip
-
-        return f'"{value}"'  # fmt: skip
+        return _encode_str(value)
 
     return value.lstrip(CEL_PREFIX)
+
+
+_NEEDS_ESCAPE = re.compile(r"[\\\x00-\x1f\x7f]")
+
+_ESCAPES = {code: f"\\x{code:02x}" for code in (*range(0x20), 0x7F)} | {
+    ord("\\"): "\\\\",
+    ord('"'): '\\"',
+    ord("\n"): "\\n",
+    ord("\r"): "\\r",
+    ord("\t"): "\\t",
+}
+
+
+def _encode_str(value: str) -> str:
+    """A CEL string literal (used for values and map keys) that evaluates to
+    exactly `value`."""
+    if _NEEDS_ESCAPE.search(value):
+        # Backslashes or control characters: CEL would interpret `\n`, drop a raw
+        # newline, etc., so escape everything that is not literal.
+        return f'"{value.translate(_ESCAPES)}"'
+
+    if '"' in value:
+        return f'"""{ value.replace('"', r'\"') }"""'  # fmt: skip
+
+    return f'"{value}"'  # fmt: skip
+
+
+# The documented exception: a string which is a decimal numeral (ASCII digits,
+# optional leading minus, fraction, exponent) is passed through as a number.
+# Anything else `int()` / `float()` accept ("inf", "nan", " 12", "1_000", "+5",
+# "5.", non-ASCII digits) is text.
+_NUMERAL = re.compile(r"-?[0-9]+(\.[0-9]+)?([eE][+-]?[0-9]+)?")
 
 
 def _encode_plain(maybe_number) -> bool:
     if not isinstance(maybe_number, str):
         return True
 
-    try:
-        int(maybe_number)
-        return True
-    except ValueError:
-        pass
-
-    try:
-        float(maybe_number)
-        return True
-    except ValueError:
-        pass
-
-    return False
+    return _NUMERAL.fullmatch(maybe_number) is not None
